@@ -45,6 +45,7 @@ type ProjectRunner struct {
 	logger            pclog.PcLogger
 	waitGroup         sync.WaitGroup
 	exitCode          int
+	exitCodeOnce      sync.Once
 	projectState      *types.ProjectState
 	mainProcess       string
 	mainProcessArgs   []string
@@ -205,16 +206,18 @@ func (p *ProjectRunner) waitIfNeeded(process *types.ProcessConfig) error {
 func (p *ProjectRunner) onProcessEnd(exitCode int, procConf *types.ProcessConfig) {
 	if (exitCode != 0 && procConf.RestartPolicy.Restart == types.RestartPolicyExitOnFailure) ||
 		procConf.RestartPolicy.ExitOnEnd {
+		// the first trigger decides the project's exit code: processes that are merely
+		// terminated by the shutdown below must not overwrite it with their own
+		p.exitCodeOnce.Do(func() { p.exitCode = exitCode })
 		_ = p.ShutDownProject()
 		verifYieldR("exitcode.beforeStore")
-		p.exitCode = exitCode
 	}
 }
 
 func (p *ProjectRunner) onProcessSkipped(procConf *types.ProcessConfig) {
 	if procConf.RestartPolicy.ExitOnSkipped {
+		p.exitCodeOnce.Do(func() { p.exitCode = 1 })
 		_ = p.ShutDownProject()
-		p.exitCode = 1
 	}
 }
 
